@@ -146,7 +146,14 @@ def checkCase (strict : List String) (c : Case) : CaseResult := Id.run do
           let lost := cps.filter (fun cp => !onRoute dr cp)
           let places := lost.map (cpPlace sr)
           let msg' := msg ++ s!" (lost: {lost.map showP} sitting {places})"
-          if places.any (· == "mid") then s := fail s ("[cp-disp-mid] " ++ msg')
+          if places.any (· == "mid") then
+            -- [cp-disp-unify]: seen on the unchanged tree (replay c10 --seed 1 --tier thorough --only
+            -- 21924, a narrow corridor): the unifying pre-pass is on and another connector of the
+            -- scene has no checkpoint; the free segment after the checkpoint is pulled past it
+            let someWithout := routes.any (fun (j, _) => j != id && (lookup cpss j).isNone)
+            let unifying := (opts / 4) % 2 == 1
+            if someWithout && unifying && !wide then s := gated s "cp-disp-unify" msg'
+            else s := fail s ("[cp-disp-mid] " ++ msg')
           else s := gated s "cp-disp" msg'
     | none => pure ()
   -- pairs
@@ -162,7 +169,8 @@ def checkCase (strict : List String) (c : Case) : CaseResult := Id.run do
         if after then
           s := bump s "pairs.shared.after"
           if wide && !commonEndpoint ri rj then
-            let msg := s!"wide corridor (W={ratToString w} ≥ (m+1)·d={ratToString (((m : Rat) + 1) * d)}): connectors {i} and {j} share a collinear stretch in displayRoute(): {di.map showP} / {dj.map showP}"
+            let fam := if c.tag == "endseg-tie" then "[endseg-tie] end segment on the line obstacle edge + buffer, free side" else if c.tag == "endseg-off" then "[endseg-off] free side" else "wide corridor"
+            let msg := s!"{fam} (W={ratToString w} ≥ (m+1)·d={ratToString (((m : Rat) + 1) * d)}): connectors {i} and {j} share a collinear stretch in displayRoute(): {di.map showP} / {dj.map showP}"
             if finalNudge then s := gated s "opt-final-nudge" msg else s := fail s msg
         if before && !after then
           s := bump s "pairs.separated"
